@@ -109,10 +109,23 @@ def run(ctx, res):
             addr = rng.choice([rng.randrange(0x4300), rng.choice(BOUNDS[:-1]) + rng.randrange(-2, 3)])
             addr = max(addr, 0)
             ln = min(rng.choice([1, 2, 5, 300, 0x1001]), 0x4300 - addr)
+            if rng.random() < 0.25:
+                # exactly one whole region (or two): the data may not become the region's own storage
+                k = rng.randrange(5)
+                addr, ln = BOUNDS[k], BOUNDS[min(k + rng.choice([1, 1, 2]), 5)] - BOUNDS[k]
             data = bytes(rng.randrange(256) for _ in range(ln))
             hist.append({'addr': addr, 'data': hx(data)})
             try:
-                g.write_cart_data(data, addr)
+                if rng.random() < 0.5:
+                    # the caller's own (mutable) buffer, reused and scribbled over right after the call
+                    buf = bytearray(data)
+                    g.write_cart_data(buf, addr)
+                    for j in range(len(buf)):
+                        buf[j] ^= 0xff
+                    hist[-1]['buffer'] = 'bytearray, overwritten by the caller after the call'
+                    continue_ok = True
+                else:
+                    g.write_cart_data(data, addr)
             except Exception as e:
                 res.fail('C18:seq:%d' % s, 'in-range write raised %r in a sequence' % e, {'history': hist})
                 break
